@@ -22,6 +22,7 @@ EXPLANATION = (
     "marker is written True at exactly the three graceful sites (disconnect, force_disconnect, the handler registered for "
     "DisconnectRequest), in each before any call that can reach the closer or a transport write, never elsewhere and never "
     "reset; the callback's argument is that marker. Liveness (that a connected session is eventually closed) is not decided."
+    " Added: the client's hook passes the connection's reason on unchanged; a remembered callback is stored only once the call cannot be refused; the stop coroutine's task is created on the running loop."
 )
 ASSUMPTIONS = ["M1-M5 of DESIGN.md section 2", "C05 (closed is final; the closer is idempotent) for at-most-once"]
 
